@@ -13,6 +13,7 @@ import CookModel.Props.C09
 import CookModel.Props.C04
 import CookModel.Lemmas.TableFacts
 import CookModel.Lemmas.RecipeKeepComp
+import CookModel.Gen.DiagSites
 /-
   C03  No input makes a public entry point panic, overflow or hang.
 
@@ -913,5 +914,34 @@ theorem C03_inline_candidates_finite {α : Type} [Arith α] (env : Env) (hd : Di
     candidate is `2`, one space, `œufs` -/
 example : fsNextCand riToyEnv.cs ['2', ' ', 'œ', 'u', 'f', 's'] =
     some ⟨[], ['2'], [' '], ['œ', 'u', 'f', 's'], []⟩ := by decide +kernel
+
+-- ===== w9c01comp =====
+
+/-- what `C03_diag_sink_severity_sites` says of one call site `<recv>.error(<arg>)` / `<recv>.warn(<arg>)` of the
+    generated table: a sink function of that name exists, and every sink function of that name (`SourceReport`'s,
+    `BlockParser`'s) asserts exactly the severity `<arg>` was built with -/
+def DiagSiteAgrees (s : Gen.DiagSite) : Prop :=
+  (∃ k ∈ Gen.diagSinks, k.fn = s.sink) ∧ ∀ k ∈ Gen.diagSinks, k.fn = s.sink → k.asserts = s.builder
+
+instance (s : Gen.DiagSite) : Decidable (DiagSiteAgrees s) := by unfold DiagSiteAgrees; infer_instance
+
+/-- Seed C03-9 (the severity `debug_assert`s of `SourceReport::{error, warn}` and `BlockParser::{error, warn}` are panic
+    sites the model cannot show, because `aerr`/`awarn`/`perr`/`pwarn` fuse builder and sink).  For every call site of
+    /repo/src listed by translators/gen_diag_sites.py (`Gen.diagSites`: every `.error(..)` / `.warn(..)` method call
+    whose argument's builder — `error!` / `warning!`, directly, through a local, a block, an `Event::Error/Warning`
+    binding or one helper function / closure — can be read off the text) the severity of the builder is the severity
+    the sink's debug assertion demands (`Gen.diagSinks`, scraped from the sink bodies).  A change of the code that sends
+    a `warning!` through `.error(..)` (or changes what a sink asserts) regenerates the table and breaks this obligation.
+    NOT covered: the sites of `Gen.diagSitesUndetermined` (the argument is the `Err` value of a callee). -/
+theorem C03_diag_sink_severity_sites : ∀ s ∈ Gen.diagSites, DiagSiteAgrees s := by decide +kernel
+
+/-- the table is not empty and holds sites of both sinks and both severities: the first site is the analysis pass
+    forwarding a parser error, the second forwarding a parser warning -/
+example : (Gen.diagSites.map (fun s => (s.recv, s.sink, s.builder))).take 2 =
+    [("ctx", "error", .error), ("ctx", "warn", .warning)] ∧ 50 ≤ Gen.diagSites.length := by decide +kernel
+
+/-- the obligation is not vacuous: a `warning!` sent through `ctx.error(..)` (seed C03-9) is refused -/
+example : ¬ DiagSiteAgrees ⟨"src/analysis/event_consumer.rs", "ingredient", 4, "ctx", "error", .warning,
+    "helper fn conflicting_reference_quantity_error"⟩ := by decide +kernel
 
 end Cook
